@@ -31,3 +31,9 @@ package exterrors
 //@ func (*SMTPError).Temporary
 //@   prop C16
 //@   ensures result == (se.Code/100 == 4)
+
+// C16: basic and enhanced code have the same class ({0,0,0} is go-smtp's "derive from the basic code"),
+// and the class is 4 or 5. Checked at every composite literal of the type in the module.
+//@ pure func coherent(code int, ec EnhancedCode) bool = (ec[0] == 0 && ec[1] == 0 && ec[2] == 0) || ec[0] == code/100
+//@ type-invariant SMTPError C16: coherent(self.Code, self.EnhancedCode) && (self.Code/100 == 4 || self.Code/100 == 5)
+//@ type-invariant smtp.SMTPError C16: coherent(self.Code, self.EnhancedCode) && (self.Code/100 == 4 || self.Code/100 == 5)
